@@ -540,7 +540,7 @@ def reassembly_cases(rng, tier):
         sid = rng.choice([None, 0, 1, 5, 9, 10, 42, 255, b'007', b'00'])
         frs = gen.fragment(rng, pay, fill, n, sid)
         prior = rng.randrange(5)
-        out.append('H')
+        out.append('H c')
         d = rng.randrange(2)
         if prior == 1:   # abandoned group
             for l in gen.fragment(rng, pay, fill, max(2, n), rng.choice([sid, 3]))[:rng.randrange(1, max(2, n))]: out.append(L(0, d, l))
@@ -564,11 +564,11 @@ def reassembly_cases(rng, tier):
     for t in (10, 27, 7):
         pay, fill = gen.armor(gen.message_bits(rng, t, 'random'))
         for cut in range(1, len(pay)):
-            out.append('H')
+            out.append('H c')
             for fr in gen.fragment(rng, pay, fill, 2, 1, cuts=[cut]): out.append(C(0, 1, fr))
         for c1 in range(1, len(pay), 3):
             for c2 in range(c1 + 1, len(pay), 2):
-                out.append('H')
+                out.append('H c')
                 for fr in gen.fragment(rng, pay, fill, 3, None, cuts=[c1, c2]): out.append(C(0, 1, fr))
     return out
 
